@@ -69,7 +69,24 @@ func (l *Layout) coin(n int) bool {
 	return l.rng != nil && l.rng.Intn(n) == 0
 }
 
-func (l *Layout) w(s string) { l.cur.WriteString(s) }
+// w writes text; a newline inside it (multi-line condition expressions) starts a new line, so that
+// the marks recorded afterwards keep pointing at the right line.
+func (l *Layout) w(s string) {
+	for {
+		i := strings.IndexByte(s, '\n')
+		if i < 0 {
+			l.cur.WriteString(s)
+			return
+		}
+		l.cur.WriteString(s[:i])
+		if l.CRLF {
+			l.cur.WriteString("\x00") // keep a bare LF inside the expression (see String)
+		}
+		l.lines = append(l.lines, l.cur.String())
+		l.cur.Reset()
+		s = s[i+1:]
+	}
+}
 
 // ws: mandatory WHITESPACE token
 func (l *Layout) ws() {
@@ -172,7 +189,7 @@ func (l *Layout) String() string {
 	if l.CRLF {
 		sep = "\r\n"
 	}
-	return strings.Join(all, sep)
+	return strings.ReplaceAll(strings.Join(all, sep), "\x00\r\n", "\n")
 }
 
 // ---- grammar rules ----
